@@ -401,8 +401,8 @@ func addPayload(r *Rng, v attr.Value) attr.Value {
 			return x
 		}
 		n := map[string]attr.Value{}
-		for k, y := range x.Attrs {
-			n[k] = addPayload(r, y)
+		for _, k := range sortedAttrKeys(x.Attrs) {
+			n[k] = addPayload(r, x.Attrs[k])
 		}
 		x.Attrs = n
 		return x
@@ -431,8 +431,8 @@ func addPayload(r *Rng, v attr.Value) attr.Value {
 			return x
 		}
 		n := map[string]attr.Value{}
-		for k, y := range x.Elems {
-			n[k] = addPayload(r, y)
+		for _, k := range sortedAttrKeys(x.Elems) {
+			n[k] = addPayload(r, x.Elems[k])
 		}
 		x.Elems = n
 		return x
@@ -671,8 +671,8 @@ func exclusive(r *Rng, v attr.Value, groups [][]string) attr.Value {
 			return x
 		}
 		n := map[string]attr.Value{}
-		for k, y := range x.Attrs {
-			n[k] = exclusive(r, y, groups)
+		for _, k := range sortedAttrKeys(x.Attrs) {
+			n[k] = exclusive(r, x.Attrs[k], groups)
 		}
 		for _, g := range groups {
 			var live []string
@@ -711,11 +711,20 @@ func exclusive(r *Rng, v attr.Value, groups [][]string) attr.Value {
 			return x
 		}
 		n := map[string]attr.Value{}
-		for k, y := range x.Elems {
-			n[k] = exclusive(r, y, groups)
+		for _, k := range sortedAttrKeys(x.Elems) {
+			n[k] = exclusive(r, x.Elems[k], groups)
 		}
 		x.Elems = n
 		return x
 	}
 	return v
+}
+
+func sortedAttrKeys(m map[string]attr.Value) []string {
+	ks := make([]string, 0, len(m))
+	for k := range m {
+		ks = append(ks, k)
+	}
+	sort.Strings(ks)
+	return ks
 }
